@@ -565,6 +565,35 @@ def r3(ctx, chk):
                    key={"construct": "language_map", "language": k}, file=rel, function="language_map", line=None)
     chk.ob(rule, "language_map values ⊆ modules (%d keys)" % len(lmap), True, "", key={"construct": "language_map"},
            file=rel, function="language_map", line=None)
+    # language_map is what the repository's generator derives from language_order: base code -> [base, base-Script, ...]
+    gm = Index(ctx.repo, roots=["dateparser_scripts"], extra=[]).modules.get("dateparser_scripts.order_languages")
+    gf = gm.functions.get("generate_language_map") if gm else None
+    ref = '''
+def generate_language_map(language_order):
+    data = {}
+    for lang in sorted(language_order):
+        if "-" not in lang:
+            data[lang] = [lang]
+        else:
+            data[lang.split("-")[0]].append(lang)
+    return data
+'''
+    if gf is None or _norm_fingerprint(gf.node) != _norm_fingerprint(ast.parse(ref).body[0]):
+        raise AnalysisError(rule, "dateparser_scripts.order_languages.generate_language_map no longer has the modelled shape")
+    want_map = {}
+    for lang in sorted(order):
+        if "-" not in lang:
+            want_map[lang] = [lang]
+        else:
+            want_map.setdefault(lang.split("-")[0], []).append(lang)
+    for k in sorted(set(lmap) | set(want_map)):
+        ok = lmap.get(k) == want_map.get(k)
+        if not ok:
+            chk.ob(rule, "language_map[%s] is what generate_language_map derives from language_order" % k, False,
+                   "shipped %s, generated %s" % (lmap.get(k), want_map.get(k)),
+                   key={"construct": "language_map entry", "language": k}, file=rel, function="language_map", line=None)
+    chk.ob(rule, "language_map == generate_language_map(language_order) (%d keys)" % len(want_map), lmap == want_map, "",
+           key={"construct": "language_map generated"}, file=rel, function="language_map", line=None)
     # loader / validation consult exactly these tables
     ldr = ctx.ix.module("dateparser.languages.loader")
     ok = ldr.imports.get("language_order", (None,))[0] == "attr" and ldr.imports.get("language_locale_dict", (None,))[0] == "attr"
